@@ -42,7 +42,7 @@ theorem C08_reuse_checks_and_claims (path : Path) (cmp : Cmp) (fname : String) (
     (subs : List Op) (ret cmpRes : Json) (raised sf : Bool) (content : String) (s s' : KSt) (hwf : s.WF)
     (h : Impl.replayOp (.buildFile path cmp fname args kwargs subs ret cmpRes raised sf content) s = some s') :
     path ∉ s.sp.claimedFiles ∧ path ∈ s'.sp.claimedFiles := by
-  obtain ⟨_, _, _, hncl, _, _, made, s2, _, hs2, hs'⟩ := replayOp_buildFile_some _ _ _ _ _ _ _ _ _ _ _ _ _ h
+  obtain ⟨_, _, _, hncl, _, _, made, s2, _, _, hs2, hs'⟩ := replayOp_buildFile_some _ _ _ _ _ _ _ _ _ _ _ _ _ h
   refine ⟨hncl, ?_⟩
   have hwf1 : (replayS1 s path made raised).WF := by
     intro p hp
